@@ -47,7 +47,7 @@ pub open spec fn new_sent_end(stream: &StreamContext, len: usize) -> usize {
     if stream.msgs_sent.end < stream.msgs_to_send.end && stream.msgs_sent.end < len { if len <= stream.msgs_to_send.end { len } else { stream.msgs_to_send.end } } else { stream.msgs_sent.end }
 }
 //@ extract src/bin/adlt/remote.rs region `if stream.msgs_sent.end < stream.msgs_to_send.end` .. `if stream.msgs_sent.end < stream.msgs_to_send.end` in fn process_file_context
-//@   sig #[verifier::loop_isolation(false)] pub fn send_window(fc: &FcView, stream: &mut StreamContext, stream_msgs_len: usize, websocket: &mut VxWsW) -> (r: Result<(), VxWsErr2>)
+//@   sig #[verifier::loop_isolation(false)] pub fn send_window(fc: &FcView, stream: &mut StreamContext, stream_msgs_len: usize, all_msgs_len: usize, websocket: &mut VxWsW) -> (r: Result<(), VxWsErr2>)
 //@   tail `Ok(())`
 //@   sub R3 `std::cmp::min(` => `vx_min_usize(` ?
 //@   sub R12 `let payload_as_text = msg.payload_as_text().unwrap_or_default();` => `` ?
@@ -62,7 +62,7 @@ pub open spec fn new_sent_end(stream: &StreamContext, len: usize) -> usize {
 //@   sub R12 `websocket.write_message(Message::Text(vx_reply_text(0)))?;` => `websocket.vx_send_text_msg(vx_hdr)?;`
 //@   spec
 //@|    requires
-//@|        window_ok(fc, old(stream), stream_msgs_len),
+//@|        window_ok(fc, old(stream), stream_msgs_len), all_msgs_len == fc.all_msgs@.len() + fc.drained_all_msgs, // (`all_msgs_len`: a local of the enclosing function the step does not use today)
 //@|    ensures
 //@|        r is Ok ==> final(stream).msgs_sent.end == new_sent_end(old(stream), stream_msgs_len), // O:window.sent_end (the sent range advances to min(stream length, window end), and only forward)
 //@|        r is Ok ==> final(websocket).delivered() == old(websocket).delivered() + window_part(fc, old(stream), old(stream).msgs_sent.end as int, new_sent_end(old(stream), stream_msgs_len) as int), // O:window.exact (exactly the messages at the stream positions between the old and the new end of the sent range are delivered, each once, in order)
